@@ -43,7 +43,9 @@ KACC = 25.0
 ASSUMPTIONS = ["accuracy constant KACC = 25 x sqrt(N) x amplification (exp(mu T) for linear, exp(L T) for manufactured problems, capped by construction at e^3); calibrated: worst observed ratio is published as worst_observed['err/bound']",
                "RK1412 on problems with max|h lambda| >= 2 is an open finding (D22) matched narrowly"]
 
-RICH = ["Rich3:RK4Solver", "Rich3:MidpointSolver", "Rich2:RK45CKSolver", "Rich4:HeunEulerSolver", "Rich3:ImplicitMidpoint", "Rich3:ABAs5o6HSolver"]
+RICH = ["Rich3:RK4Solver", "Rich3:MidpointSolver", "Rich2:RK45CKSolver", "Rich4:HeunEulerSolver", "Rich3:ImplicitMidpoint", "Rich3:ABAs5o6HSolver",
+        # deeper extrapolation tableaux (the convergence test can stop the row loop early from 6 levels on)
+        "Rich6:MidpointSolver", "Rich7:RK4Solver", "Rich8:EulerSolver"]
 
 
 def _adaptive_names():
